@@ -92,6 +92,9 @@ def main(argv=None):
         seed = int(os.environ.get("VERIF_SEED", "0"))
     except ValueError:
         seed = 0
+    import logging
+
+    logging.disable(logging.CRITICAL)  # the library logs through `logging`; keep check output to verdict lines
     from mc import tol
 
     mod = importlib.import_module("props." + pid.lower())
